@@ -868,6 +868,33 @@ theorem C05_src_got_user_exception :
   refine ⟨rfl, fun _ _ _ => rfl, fun s e => ?_⟩
   simp only [got]
   split <;> simp [reportTb]
+/-- **C05 (source: the reporters, what a run resets, fixtures, cleanups).**  The five `_report_*` handlers end with one call of the
+outcome method with `details=self.getDetails()` (the details are read when the outcome is reported); `_report_skip` adds the
+reason first; `__init__` calls `_reset()` and then creates the `addOnException` handler list (so `_reset()` — a second run — keeps
+the handlers); `_reset` empties the cleanups, the traceback counters and the details; `expectFailure` adds the reason, then
+the traceback; `useFixture` gathers the fixture's details; `_run_cleanups` pops until the list is empty. -/
+theorem C05_src_reports :
+    TTV.Generated.DetailSrc.caseInit = TTV.SrcRef.DetailSrc.caseInit ∧
+    TTV.Generated.DetailSrc.caseReset = TTV.SrcRef.DetailSrc.caseReset ∧
+    TTV.Generated.DetailSrc.expectFailure = TTV.SrcRef.DetailSrc.expectFailure ∧
+    TTV.Generated.DetailSrc.useFixture = TTV.SrcRef.DetailSrc.useFixture ∧
+    TTV.Generated.DetailSrc.reportError = TTV.SrcRef.DetailSrc.reportError ∧
+    TTV.Generated.DetailSrc.reportExpectedFailure = TTV.SrcRef.DetailSrc.reportExpectedFailure ∧
+    TTV.Generated.DetailSrc.reportFailure = TTV.SrcRef.DetailSrc.reportFailure ∧
+    TTV.Generated.DetailSrc.reportSkip = TTV.SrcRef.DetailSrc.reportSkip ∧
+    TTV.Generated.DetailSrc.reportUnexpectedSuccess = TTV.SrcRef.DetailSrc.reportUnexpectedSuccess ∧
+    TTV.Generated.DetailSrc.runCleanups = TTV.SrcRef.DetailSrc.runCleanups ∧
+    TTV.SrcRef.DetailSrc.reportSkip.drop 8 =
+      ["  self._add_reason(v0)", "  a0.addSkip(self, details=self.getDetails())"] ∧
+    TTV.SrcRef.DetailSrc.reportError.drop 2 = ["  a0.addError(self, details=self.getDetails())"] ∧
+    TTV.SrcRef.DetailSrc.reportFailure.drop 2 = ["  a0.addFailure(self, details=self.getDetails())"] ∧
+    TTV.SrcRef.DetailSrc.reportExpectedFailure.drop 2 = ["  a0.addExpectedFailure(self, details=self.getDetails())"] ∧
+    TTV.SrcRef.DetailSrc.reportUnexpectedSuccess.drop 2 = ["  a0.addUnexpectedSuccess(self, details=self.getDetails())"] ∧
+    TTV.SrcRef.DetailSrc.caseReset.drop 1 =
+      ["  self._cleanups = []", "  self._unique_id_gen = itertools.count(1)", "  self._traceback_id_gens = {}",
+       "  self.__setup_called = False", "  self.__teardown_called = False", "  self.__details = None"] :=
+  ⟨rfl, rfl, rfl, rfl, rfl, rfl, rfl, rfl, rfl, rfl, rfl, rfl, rfl, rfl, rfl, rfl⟩
+
 end src
 
 end TTV.Props.C05
